@@ -17,6 +17,15 @@ CHECKS = {
          "implementation's state matrix from column k on thousands of recorded steps, and whole-run statistics.",
     ref="6 C01", technique="Rocq proof over R (field/nra) on a generic step model + one-step float correspondence by vm_compute + numpy restatement",
     note=TB % "c01" + "nucleation decisions are inputs here (law: C03); H_shelf with random variability is observed from the object; rounding not analysed."),
+ "C03": dict(
+    cat="proof",
+    text="Theorems over R (props/C03.v): a vial nucleates in a step iff it is liquid, supercooled after the liquid update and its uniform draw is below "
+         "k_v V (T_eq_l - T)^b dt with k_v = 10^-(a + c xi_v); certain once that reaches 1; never if not supercooled or iced (also at the CN step); the recorded "
+         "temperature is the supercooled temperature; the probability is positive, proportional to dt and V, strictly increasing in the supercooling. "
+         "Tied to the code by scripted-dice lockstep runs (every draw placed just below/above the probability computed by an independent restatement) and by "
+         "`interval` certificates that the probabilities used equal the R model's. PARTIAL: the distributional claim over numpy's random streams is not modelled.",
+    ref="6 C03", technique="Rocq proof over R (Rpower law, jump_iff) + interval certificates + scripted-generator lockstep differential",
+    note=TB % "c03" + "the generator object of the Snowflake is replaced harness-side; xi_v reproduced as norm.ppf(rand) after np.random.seed(seed_v); standard normal / uniform distribution of numpy streams trusted."),
  "C05": dict(
     cat="proof",
     text="Theorems over R for every program with positive rate/step/total time and end <= hold temperatures <= start (props/C05.v): "
